@@ -454,12 +454,27 @@ theorem parseFileHeader_take (file : Bytes) (h : fileHeaderSize ≤ file.length)
   unfold parseFileHeader
   rw [h8, if_neg h1, if_neg h2, h3, h4]
 
+theorem effCap_pos (cap : Nat) : 0 < effCap cap := by
+  unfold effCap minReadBufferSize; split <;> omega
+
+theorem effCap_of_pos (cap : Nat) (h : 0 < cap) : effCap cap = cap := by
+  unfold effCap; rw [if_neg (by omega)]
+
+/-- a reader made by `NewReaderBuf` never has capacity 0: `fill`'s panic branch is unreachable -/
+theorem constructed_cap_pos (cap : Nat) (u : Under) : 0 < (Rd.new cap u).cap := effCap_pos cap
+
+/-- the stack as constructed (`NewCountingByteReader(NewReaderBuf(u, make([]byte, cap)))`, ANY `cap`) stands for
+the whole data of its underlying reader -/
+theorem rep_new (cap : Nat) (u : Under) (hns : NoStall u.sched) :
+    ({ rd := Rd.new cap u, count := 0 } : CRd).Rep (effCap cap) u.eofData u.rem 0 :=
+  rep_fresh (effCap cap) u (effCap_pos cap) hns
+
 /-- `Open` over the buffered stack = `parseFileHeader` of the file -/
-theorem open_spec (cap : Nat) (file : Bytes) (u : Under) (hcap : 0 < cap) (hns : NoStall u.sched)
+theorem open_spec (cap : Nat) (file : Bytes) (u : Under) (hns : NoStall u.sched)
     (hrem : u.rem = file) :
     ∃ fr', (FileRd.new file cap u).open = (liftE (parseFileHeader file), fr') ∧
-      (∀ v ct, parseFileHeader file = .ok (v, ct) → fr'.Rep cap u.eofData file v fileHeaderSize) := by
-  have hrep := rep_fresh cap u hcap hns
+      (∀ v ct, parseFileHeader file = .ok (v, ct) → fr'.Rep (effCap cap) u.eofData file v fileHeaderSize) := by
+  have hrep := rep_new cap u hns
   rw [hrem] at hrep
   obtain ⟨c', h1, h2, _⟩ := readFull_spec fileHeaderSize hrep
   by_cases hn : fileHeaderSize ≤ file.length
@@ -575,7 +590,7 @@ theorem readByte_cap0_panics (b : Rd) (hcap : b.cap = 0) (hp : b.pend = []) (he 
   simp [Rd.readByte, Rd.readByteLoop, hp, he, Rd.fill, hcap]
 
 /-- data handed out together with EOF by a large read is returned by `ReadFull` — and never counted -/
-theorem readFull_uncounted (cap k : Nat) (d : Bytes) (hd : d ≠ []) (hcap : cap ≤ d.length) :
+theorem readFull_uncounted_reset (cap k : Nat) (d : Bytes) (hd : d ≠ []) (hcap : cap ≤ d.length) :
     let c : CRd := { rd := Rd.reset cap { rem := d, sched := [], eofData := true }, count := k }
     (c.readFull d.length).data = d ∧ (c.readFull d.length).err = none ∧ (c.readFull d.length).st.count = k := by
   intro c
@@ -598,5 +613,10 @@ theorem readFull_uncounted (cap k : Nat) (d : Bytes) (hd : d ≠ []) (hcap : cap
     simp only [CRd.readFullLoop, List.length_nil, hpos, if_true, Nat.sub_zero, hread, finishFull, List.nil_append,
       ge_iff_le, Nat.le_refl]
   rw [this]; exact ⟨rfl, rfl, rfl⟩
+
+theorem readFull_uncounted (cap k : Nat) (d : Bytes) (hd : d ≠ []) (hcap : effCap cap ≤ d.length) :
+    let c : CRd := { rd := Rd.new cap { rem := d, sched := [], eofData := true }, count := k }
+    (c.readFull d.length).data = d ∧ (c.readFull d.length).err = none ∧ (c.readFull d.length).st.count = k :=
+  readFull_uncounted_reset (effCap cap) k d hd hcap
 
 end SST.Buf
